@@ -21,8 +21,8 @@ theorem scq_hannPulse_eq (n : Nat) (Ω a : ℝ) :
 
 /-- the DRAG instruction for a rotation about `op` on qubit `t` -/
 noncomputable def scqDragInstr (g : GateRec ℝ) (op third : String) (neg : Bool) (n t : Nat) (Ω α : ℝ) : Instr ℝ :=
-  let c := (SCQ.hannPulse Real.pi n Ω (SCQ.rotArea Real.pi g.arg)).1
-  let tl := (SCQ.hannPulse Real.pi n Ω (SCQ.rotArea Real.pi g.arg)).2
+  let c := (SCQ.hannPulse Real.pi n (SCQ.rotMax Ω (SCQ.rotArea Real.pi g.arg)) (SCQ.rotArea Real.pi g.arg)).1
+  let tl := (SCQ.hannPulse Real.pi n (SCQ.rotMax Ω (SCQ.rotArea Real.pi g.arg)) (SCQ.rotArea Real.pi g.arg)).2
   let y := (gradient c (tl.getD 1 0 - tl.getD 0 0)).map fun gr => SCQ.dragY (SCQ.dragDt Real.pi gr) α
   ⟨g, false, tl, [⟨op ++ toString t, c.map fun x => SCQ.dragX x α⟩, ⟨"sz" ++ toString t, c.map fun x => SCQ.dragZ x α⟩,
     ⟨third ++ toString t, if neg then y.map (fun v => -v) else y⟩]⟩
@@ -32,14 +32,14 @@ theorem scq_rotation_drag_sx (H : SCQ.HW ℝ) (g : GateRec ℝ) (n t : Nat) (res
     (hw : H.raw.wq[t]? = some w) :
     SCQ.rotation Real.pi H true n g "sx" "omega_single" = .ok (scqDragInstr g "sx" "sy" false n t Ω α) := by
   unfold SCQ.rotation
-  have h0 : ((SCQ.hannPulse Real.pi n Ω (SCQ.rotArea Real.pi g.arg)).2)[0]? = some (((SCQ.hannPulse Real.pi n Ω (SCQ.rotArea Real.pi g.arg)).2).getD 0 0) := by
+  have h0 : ((SCQ.hannPulse Real.pi n (SCQ.rotMax Ω (SCQ.rotArea Real.pi g.arg)) (SCQ.rotArea Real.pi g.arg)).2)[0]? = some (((SCQ.hannPulse Real.pi n (SCQ.rotMax Ω (SCQ.rotArea Real.pi g.arg)) (SCQ.rotArea Real.pi g.arg)).2).getD 0 0) := by
     rw [List.getD_eq_getElem?_getD]
-    have : 0 < ((SCQ.hannPulse Real.pi n Ω (SCQ.rotArea Real.pi g.arg)).2).length := by
+    have : 0 < ((SCQ.hannPulse Real.pi n (SCQ.rotMax Ω (SCQ.rotArea Real.pi g.arg)) (SCQ.rotArea Real.pi g.arg)).2).length := by
       simp [scq_hannPulse_eq, linspace]; omega
     rw [List.getElem?_eq_getElem this]; rfl
-  have h1 : ((SCQ.hannPulse Real.pi n Ω (SCQ.rotArea Real.pi g.arg)).2)[1]? = some (((SCQ.hannPulse Real.pi n Ω (SCQ.rotArea Real.pi g.arg)).2).getD 1 0) := by
+  have h1 : ((SCQ.hannPulse Real.pi n (SCQ.rotMax Ω (SCQ.rotArea Real.pi g.arg)) (SCQ.rotArea Real.pi g.arg)).2)[1]? = some (((SCQ.hannPulse Real.pi n (SCQ.rotMax Ω (SCQ.rotArea Real.pi g.arg)) (SCQ.rotArea Real.pi g.arg)).2).getD 1 0) := by
     rw [List.getD_eq_getElem?_getD]
-    have : 1 < ((SCQ.hannPulse Real.pi n Ω (SCQ.rotArea Real.pi g.arg)).2).length := by
+    have : 1 < ((SCQ.hannPulse Real.pi n (SCQ.rotMax Ω (SCQ.rotArea Real.pi g.arg)) (SCQ.rotArea Real.pi g.arg)).2).length := by
       simp [scq_hannPulse_eq, linspace]; omega
     rw [List.getElem?_eq_getElem this]; rfl
   simp only [ht, List.head?_cons, scq_get_os, hΩ, hw, hα, if_true]
@@ -51,14 +51,14 @@ theorem scq_rotation_drag_sy (H : SCQ.HW ℝ) (g : GateRec ℝ) (n t : Nat) (res
     (hw : H.raw.wq[t]? = some w) :
     SCQ.rotation Real.pi H true n g "sy" "omega_single" = .ok (scqDragInstr g "sy" "sx" true n t Ω α) := by
   unfold SCQ.rotation
-  have h0 : ((SCQ.hannPulse Real.pi n Ω (SCQ.rotArea Real.pi g.arg)).2)[0]? = some (((SCQ.hannPulse Real.pi n Ω (SCQ.rotArea Real.pi g.arg)).2).getD 0 0) := by
+  have h0 : ((SCQ.hannPulse Real.pi n (SCQ.rotMax Ω (SCQ.rotArea Real.pi g.arg)) (SCQ.rotArea Real.pi g.arg)).2)[0]? = some (((SCQ.hannPulse Real.pi n (SCQ.rotMax Ω (SCQ.rotArea Real.pi g.arg)) (SCQ.rotArea Real.pi g.arg)).2).getD 0 0) := by
     rw [List.getD_eq_getElem?_getD]
-    have : 0 < ((SCQ.hannPulse Real.pi n Ω (SCQ.rotArea Real.pi g.arg)).2).length := by
+    have : 0 < ((SCQ.hannPulse Real.pi n (SCQ.rotMax Ω (SCQ.rotArea Real.pi g.arg)) (SCQ.rotArea Real.pi g.arg)).2).length := by
       simp [scq_hannPulse_eq, linspace]; omega
     rw [List.getElem?_eq_getElem this]; rfl
-  have h1 : ((SCQ.hannPulse Real.pi n Ω (SCQ.rotArea Real.pi g.arg)).2)[1]? = some (((SCQ.hannPulse Real.pi n Ω (SCQ.rotArea Real.pi g.arg)).2).getD 1 0) := by
+  have h1 : ((SCQ.hannPulse Real.pi n (SCQ.rotMax Ω (SCQ.rotArea Real.pi g.arg)) (SCQ.rotArea Real.pi g.arg)).2)[1]? = some (((SCQ.hannPulse Real.pi n (SCQ.rotMax Ω (SCQ.rotArea Real.pi g.arg)) (SCQ.rotArea Real.pi g.arg)).2).getD 1 0) := by
     rw [List.getD_eq_getElem?_getD]
-    have : 1 < ((SCQ.hannPulse Real.pi n Ω (SCQ.rotArea Real.pi g.arg)).2).length := by
+    have : 1 < ((SCQ.hannPulse Real.pi n (SCQ.rotMax Ω (SCQ.rotArea Real.pi g.arg)) (SCQ.rotArea Real.pi g.arg)).2).length := by
       simp [scq_hannPulse_eq, linspace]; omega
     rw [List.getElem?_eq_getElem this]; rfl
   simp only [ht, List.head?_cons, scq_get_os, hΩ, hw, hα, if_true]
